@@ -187,6 +187,37 @@ PROPS["C08"] = {
     "oracle_tags": ["C08"],
     "trusted_extra": [COMPOSITE_NOTE],
 }
+PROPS.update({
+    "C05": {
+        "level": "proof",
+        "lean_modules": ["ApdVerif.Props.C05"],
+        "theorem_prefixes": ["C05_"],
+        "streams": [{"stream": "alias", "n": {"quick": 20000, "thorough": 400000}},
+                    {"stream": "bigint", "n": {"quick": 8000, "thorough": 150000}}],
+        "projections": ["alias", "alias-imp", "methalias", "bigint"],
+        "oracle_tags": ["C05"],
+        "trusted_extra": ["store-level programs (lean/ApdVerif/Imp/Ops.lean) transcribed by hand from the Go statement order at field granularity, tied by running each program under every aliasing pattern against the real code; BigInt aliasing (math/big overlap detection over the shared inline array) is carried by the bigint stream only", COMPOSITE_NOTE],
+    },
+    "C06": {
+        "level": "proof",
+        "lean_modules": ["ApdVerif.Props.C06"],
+        "theorem_prefixes": ["C06_"],
+        "streams": [{"stream": "alias", "n": {"quick": 20000, "thorough": 400000}}],
+        "projections": ["alias", "alias-imp", "methalias"],
+        "oracle_tags": ["C06"],
+        "trusted_extra": ["package tables and constants are observed through the verif hook VerifSnapshot before/after every call of the alias stream; history probes re-run recorded calls later in the process", COMPOSITE_NOTE],
+    },
+    "C18": {
+        "level": "other",
+        "lean_modules": ["ApdVerif.Props.C18", "ApdVerif.Props.C06"],
+        "theorem_prefixes": ["C18_", "C06_foot_", "C06_writes_ctxOp"],
+        "streams": [{"stream": "race", "n": {"quick": 400, "thorough": 6000}},
+                    {"stream": "alias", "n": {"quick": 8000, "thorough": 100000}}],
+        "projections": ["alias-imp"],
+        "oracle_tags": ["C18", "C06"],
+        "explanation": "partial: Lean proves, for the store-level programs of the 16 single-rounding Context operations, the footprints (reads within {x,y,d}, writes within {d}) and the generic interleaving theorem: for any family of calls with pairwise distinct destinations that are distinct from every other call's operands, under EVERY schedule of their primitive field accesses each call returns its solo result (= the value-level model's) - hence no conflicting accesses at the model's granularity. Whether the compiled code confines its writes (BigInt.inner temporaries pointing into shared inline arrays through unsafe, math/big never writing through operands, word tearing) lives in the runtime: the footprint is validated on the real code by the alias stream (operands, context and package state unchanged) and a -race build runs 16 goroutines x shared contexts/operands (inline and heap coefficients), comparing every result with the sequential baseline",
+    },
+})
 
 _known = None
 
